@@ -266,7 +266,9 @@ impl Rule {
             .map(|f| {
                 let outer_name = format_ident!("{}_{}", self.name, f.name);
                 let inner_name = format_ident!("Parsed_{}", f.name);
-                quote!(use super::#outer_name as #inner_name;)
+                // Not `super::#outer_name`: a field named `impl` makes the enum's name equal to the
+                // name of this rule's own module, which would shadow it there.
+                quote!(use super::super::#outer_name as #inner_name;)
             })
             .collect();
         let field_names: Vec<Ident> = fields.iter().map(|f| safe_ident(f.name)).collect();
